@@ -1121,10 +1121,13 @@ func decisions(body *ast.BlockStmt) []string {
 }
 
 // getFilesCallback: the decisions of the WalkFunc literal inside getFiles, and what getFiles calls it with
-func getFilesCallback(f *ast.File) []string {
-	fd := findFunc(f, "getFiles")
+func getFilesCallback(f *ast.File) []string { return walkCallback(f, "getFiles") }
+
+// walkCallback: the decisions of the first function literal passed as second argument of a call inside `fn`
+func walkCallback(f *ast.File, fn string) []string {
+	fd := findFunc(f, fn)
 	if fd == nil {
-		return []string{"<getFiles not found>"}
+		return []string{"<" + fn + " not found>"}
 	}
 	var out []string
 	ast.Inspect(fd.Body, func(n ast.Node) bool {
@@ -1364,6 +1367,7 @@ func main() {
 		}
 		b.WriteString("def outputFileUses : List String := " + leanStrList(uses) + "\n")
 	}
+	b.WriteString("def loadRulesCallback : List String := " + leanStrList(walkCallback(ci, "loadRules")) + "\n")
 	b.WriteString("def getFilesCallback : List String := " + leanStrList(getFilesCallback(construct)) + "\n")
 	b.WriteString("def docAccessors : List (String × String × String) := [")
 	for i, a := range docAccessors(parseFile(filepath.Join(sp, "model", "javadoc.go"))) {
